@@ -112,3 +112,127 @@ func zzC24VarintReadVsRef() {
 	}
 	verifReach("end")
 }
+
+// zzRefParseTransportParams parses (varint id, varint length, value)* with the
+// independent decoder.
+type zzRefTP struct {
+	id  uint64
+	val []byte
+}
+
+func zzRefParseTransportParams(b []byte) (out []zzRefTP, ok bool) {
+	for len(b) > 0 {
+		id, n, _, k := zzRefVarintDecode(b)
+		if !k {
+			return nil, false
+		}
+		b = b[n:]
+		l, n2, _, k2 := zzRefVarintDecode(b)
+		if !k2 {
+			return nil, false
+		}
+		b = b[n2:]
+		if uint64(len(b)) < l {
+			return nil, false
+		}
+		out = append(out, zzRefTP{id, b[:l]})
+		b = b[l:]
+	}
+	return out, true
+}
+
+func zzMakeTP(i int) (TransportParameter, uint64, []byte) {
+	kind := verifChoice("kind", 9)
+	switch kind {
+	case 0:
+		v := verifU64("v")
+		verifAssume(v < 1<<62)
+		return MaxIdleTimeout(v), 0x1, quicvarintRef(v)
+	case 1:
+		v := verifU64("v")
+		verifAssume(v < 1<<62)
+		return InitialMaxStreamsUni(v), 0x9, quicvarintRef(v)
+	case 2:
+		return &DisableActiveMigration{}, 0xc, []byte{}
+	case 3:
+		n := verifChoice("cidlen", 4)
+		b := verifBytes("cid", n)
+		return InitialSourceConnectionID(b), 0xf, b
+	case 4:
+		id := verifU64("fakeid")
+		verifAssume(id != 0 && id < 1<<62)
+		n := verifChoice("fakelen", 4)
+		b := verifBytes("fakeval", n)
+		return &FakeQUICTransportParameter{Id: id, Val: b}, id, b
+	case 5:
+		n := verifChoice("padlen", 4)
+		b := verifBytes("pad", n)
+		return PaddingTransportParameter(b), 0x15, b
+	case 6:
+		id := verifU64("greaseid")
+		n := verifChoice("greaselen", 3)
+		b := verifBytes("greaseval", n+1)
+		verifAssume(id >= 27 && (id-27)%31 == 0 && id < 1<<62)
+		return &GREASETransportParameter{IdOverride: id, ValueOverride: b}, id, b
+	case 7:
+		cv := verifU32("chosen")
+		av := verifU32("avail")
+		verifAssume(av != VERSION_GREASE)
+		leg := verifBool("legacy")
+		id := uint64(0x11)
+		if leg {
+			id = 0xff73db
+		}
+		return &VersionInformation{ChoosenVersion: cv, AvailableVersions: []uint32{av}, LegacyID: leg}, id,
+			[]byte{byte(cv >> 24), byte(cv >> 16), byte(cv >> 8), byte(cv), byte(av >> 24), byte(av >> 16), byte(av >> 8), byte(av)}
+	default:
+		return &GREASEQUICBit{}, 0x2ab2, []byte{}
+	}
+}
+
+// quicvarintRef is an independent minimal varint encoder (RFC 9000 §16).
+func quicvarintRef(v uint64) []byte {
+	switch {
+	case v <= 63:
+		return []byte{byte(v)}
+	case v <= 16383:
+		return []byte{0x40 | byte(v>>8), byte(v)}
+	case v <= 1073741823:
+		return []byte{0x80 | byte(v>>24), byte(v >> 16), byte(v >> 8), byte(v)}
+	default:
+		return []byte{0xc0 | byte(v>>56), byte(v >> 48), byte(v >> 40), byte(v >> 32), byte(v >> 24), byte(v >> 16), byte(v >> 8), byte(v)}
+	}
+}
+
+//verif:harness C24 transport_params_marshal1 unwind=24 paths=40000
+//verif:expect end
+//verif:doc TransportParameters.Marshal of one parameter drawn from 9 built-in kinds (symbolic ids / values, value bodies <= 3 bytes, varint values < 2^62) parses with the reference decoder to the same (id, value) list.
+func zzC24TransportParamsMarshal1() { zzC24TPBody(1) }
+
+//verif:harness C24 transport_params_marshal2 tier=thorough unwind=24 paths=100000 wall=1800
+//verif:expect end
+//verif:doc Same for lists of two parameters (every ordered pair of the 9 kinds).
+func zzC24TransportParamsMarshal2() { zzC24TPBody(2) }
+
+func zzC24TPBody(n int) {
+	var tps TransportParameters
+	var ids []uint64
+	var vals [][]byte
+	for i := 0; i < n; i++ {
+		tp, id, val := zzMakeTP(i)
+		tps = append(tps, tp)
+		ids = append(ids, id)
+		vals = append(vals, val)
+	}
+	b := tps.Marshal()
+	got, ok := zzRefParseTransportParams(b)
+	verifAssert(ok, "parses")
+	verifAssert(len(got) == n, "same-count")
+	if ok && len(got) == n {
+		for i := range got {
+			verifAssert(got[i].id == ids[i], "same-id")
+			verifAssert(bytes.Equal(got[i].val, vals[i]), "same-value")
+		}
+	}
+	verifReach("end")
+}
